@@ -77,6 +77,11 @@ class CallGraph:
                     for i in self.F.impls:
                         if i["trait"] == "core::iter::traits::collect::FromIterator" and i["self"] == tgt_ty and "from_iter" in i["items"]:
                             es.append(Edge(body.path, bb, "cb", i["items"]["from_iter"], i["items"]["from_iter"], "lean_string", line))
+                if name == "core::mem::drop" and t.get("cb_local_adts"):
+                    # drop(guard) runs the guard type's local Drop impl
+                    for i in self.F.impls:
+                        if i["trait"] == "core::ops::drop::Drop" and i["self"].split("<")[0] in t["cb_local_adts"] and "drop" in i["items"]:
+                            es.append(Edge(body.path, bb, "drop", i["items"]["drop"], i["items"]["drop"], "lean_string", line))
                 for c in t.get("cb_closures", []):
                     es.append(Edge(body.path, bb, "cb", c, c, "lean_string", line))
                 for c in t.get("cb_impls", []):
